@@ -30,6 +30,7 @@ var registry = map[string]func() fw.Prop{
 	"C10": func() fw.Prop { return c02.C10{} },
 	"C01": func() fw.Prop { return c02.C01{} },
 	"C18": func() fw.Prop { return c02.C18{} },
+	"C14": func() fw.Prop { return c02.C14{} },
 	"C03": func() fw.Prop { return c03.Prop{} },
 	"C04": func() fw.Prop { return c04.Prop{} },
 	"C06": func() fw.Prop { return c06.Prop{} },
